@@ -354,8 +354,17 @@ fn decode_sent(bytes: &[u8], keys: Option<&SessionKeys>, at: Duration) -> Sent {
     s
 }
 
+/// RFC 5905 reference id of a host address, computed independently of the crate: the IPv4 address itself, or the
+/// first four octets of the MD5 hash of the IPv6 address (big endian, as the field appears on the wire)
 pub fn refid_of_ip(ip: std::net::IpAddr) -> u32 {
-    nh::refid_to_u32(ntp_proto::ReferenceId::from_ip(ip))
+    use md5::Digest;
+    match ip {
+        std::net::IpAddr::V4(a) => u32::from_be_bytes(a.octets()),
+        std::net::IpAddr::V6(a) => {
+            let d = md5::Md5::digest(a.octets());
+            u32::from_be_bytes([d[0], d[1], d[2], d[3]])
+        }
+    }
 }
 
 fn cookie_bytes(seed: u64, len: u16) -> Vec<u8> {
